@@ -10,6 +10,16 @@ CHECKS = {
     technique="TLA+ spec RpycSend model-checked by TLC; TLC state-graph transition cover replayed into real threads under a deterministic scheduler; implementation schedules (random + preemption-bounded DFS, line granularity in thorough) trace-validated by TLC and judged at a recording transport",
     text="TLC exhausts the _send protocol (2-3 threads, re-entrant activation, multi-write packets) for mutual exclusion, contiguity, issue order, no stranded message, termination; every edge of the dumped state graph is replayed on the real Connection with state comparison, and implementation executions under controlled schedules are validated against the spec by TLC and by a byte-level oracle",
     note="bounded configurations; CPython-level atomicity of list/lock operations; simulated Lock/list/stream wrappers stand in for the OS scheduler"),
+ "C13": dict(
+    spec="RpycServe", design="5/C13",
+    technique="TLA+ spec RpycServe (serve/wait/dispatch, one action per shared operation) model-checked by TLC; state-graph transition cover replayed into real client threads + BgServingThread under a deterministic scheduler; random and preemption-bounded exhaustive implementation schedules trace-validated by TLC and judged by per-request oracles",
+    text="TLC exhausts 2-3 client threads (+ background server) against a peer answering in any order for receive-lock exclusion, exactly-once dispatch, reply/request matching, no lost wake-up, no hang, termination; the real serve()/AsyncResult code is driven along every edge of the state graph with state comparison, and implementation schedules are checked against the spec by TLC and by direct oracles (result identity, dispatch counts, sequence numbers, deadlock / lost wake-up detection in virtual time)",
+    note="bounded configurations; sending is one step (C12); preemption at shared-object operations (source lines in the thorough tier); simulated Lock/Condition/clock/transport"),
+ "C14": dict(
+    spec="RpycServe", design="5/C14",
+    technique="TLC invariant OnlyKnownStalls on RpycServe + TLC counterexample to NoStall replayed on the real code in virtual time; implementation schedule exploration with stall classification against known_findings.json",
+    text="the model of the pinned serve() (notify before dispatch) violates NoStall; TLC's counterexample is followed step by step in the real code and the stall is measured in virtual time (known finding); TLC proves every reachable stall of the model has the known hand-off shape, and every explored implementation schedule is classified the same way, so a stall of any other shape is reported",
+    note="bounded configurations; virtual time: timeouts only run out at quiescence; the known hand-off stall is listed in known_findings.json"),
 }
 NA = {}
 
